@@ -40,6 +40,7 @@ EXPLANATION = (
 ASSUMPTIONS = [
     "StubDatabase subclass answers get_token / get_port_from_token / get_dependees / get_port / get_input_steps / get_input_ports / get_step with rows shaped as SqliteDatabase returns them; sqlite itself is not under test; DetLoop; logging disabled",
     "availability of a data token is the real Token.is_available (the persisted `recoverable` flag, symbolic); FileToken.is_available (remote path probing through the DataManager) is outside the claim; JobToken availability is its recoverable flag (symbolic in GRAPH; False in STEPS/TWINS, as ScheduleStep persists it)",
+    "COMPOSITE lemma (harness/C18_file.py): the real ListToken/ObjectToken.is_available over 0..3 plain Tokens with symbolic recoverable flags (an empty list/object lost nothing: available), DetLoop",
     "FILE lemma (harness/C18_file.py): FileToken.is_available runs on a stub data manager and a stub StreamFlowPath whose existence answers are solver variables (the real probe goes to a shell/file system)",
     "stub failure manager: is_recovering(job) answers a symbolic boolean per job token (GRAPH) or False (STEPS, TWINS)",
     "GRAPH: every token sits on its own port with tag '0'; every DAG on n <= 5 tokens (quick: data tokens and one job-token variant; thorough: three job-token variants); thorough also every DAG on 6 data tokens and, with job tokens, the layered sub-family {1,2}->{3,4}->{5,6} (+3->4, 5->6) on 6 tokens; the failed job's inputs are the last one, two or three tokens",
